@@ -12,6 +12,7 @@
 #include <unistd.h>
 
 #include <cinttypes>
+#include <csignal>
 #include <iostream>
 #include <new>
 #include <set>
@@ -376,14 +377,28 @@ main()
         std::fputc('\n', stdout);
       }
       std::fflush(stdout);
+      static int hangs = 0;
+      if (hangs >= 2) {  // do not spend the whole budget on a tree that hangs everywhere
+        std::printf("END skipped\n");
+        std::fflush(stdout);
+        have = false;
+        continue;
+      }
       pid_t pid = fork();
       if (pid == 0) {
+        // wall-clock guard: code of the implementation that never reaches a scheduling point again
+        // (e.g. a loop over plain memory that does not terminate) cannot be preempted by the baton scheduler
+        alarm(20);
         run_child(sc);
         _exit(0);
       }
       int st = 0;
       waitpid(pid, &st, 0);
-      if (!(WIFEXITED(st) && WEXITSTATUS(st) == 0)) {
+      if (WIFSIGNALED(st) && WTERMSIG(st) == SIGALRM) {
+        ++hangs;
+        std::printf("END hang\n");
+        std::fflush(stdout);
+      } else if (!(WIFEXITED(st) && WEXITSTATUS(st) == 0)) {
         std::printf("END crash status=%d\n", st);
         std::fflush(stdout);
       }
